@@ -9,7 +9,7 @@
 From Coq Require Import ZArith List Bool Ascii String Lia.
 From Hermes Require Import Num DateModel CropParamModel.
 Import ListNotations.
-Open Scope Z_scope.
+Local Open Scope Z_scope.
 
 Inductive res (A : Type) := Ok (a : A) | Err | Crash.
 Arguments Ok {A} a. Arguments Err {A}. Arguments Crash {A}.
